@@ -62,7 +62,7 @@ def gen_task(rng, o, nb, main):
         r = rng.random()
         if rng.random() < o['p_expect']:
             prog.append(['expect', rng.randrange(nb), rng.choice(['A', 'B', 'C', 'D', 'C', 'D', '*']), rng.choice([0, 0, 1, 2, 3, 4]),
-                         rng.choice([None, 5 / 128, 21 / 128, 67 / 128])])
+                         rng.choice([None, 5 / 128, 21 / 128, 67 / 128]), rng.choice([None, None, None, 3 / 128, 19 / 128])])
             continue
         if rng.random() < o['p_stop']:
             prog.append(['stop', rng.randrange(nb), rng.random() < 0.2])
@@ -101,7 +101,7 @@ def gen_core(rng, **over):
         if rng.random() < o['p_payload']:
             sc['types'][n]['payload'] = rng.choice(PAYLOADS)
     if o['p_walfault'] > 0:
-        sc['walfaults'] = [[i, rng.choice(['open', 'write'])] for i in range(12) if rng.random() < o['p_walfault']]
+        sc['walfaults'] = [[i, rng.choice(['open', 'write', 'mkdir'])] for i in range(12) if rng.random() < o['p_walfault']]
     if o['p_timeout'] > 0:
         # timeouts on parallel buses are outside the modelled envelope (see DESIGN)
         for b in sc['buses']:
@@ -169,6 +169,37 @@ def gen_chain(rng, p_timeout=0.5, p_await=0.8, p_parallel=0.0, nb=(1, 2), maxh=(
     sc['tasks'].append(main)
     if rng.random() < 0.3:
         sc['tasks'].append([['sleep', rng.choice([1 / 64, 5 / 64, 17 / 64])], ['dispatch', rng.randrange(n), rng.choice('ABCD'), 0]])
+    return sc
+
+
+def gen_idle(rng, **_):
+    """wait_until_idle() racing a sequential producer (`await bus.dispatch(...)` in a loop) at every phase offset,
+    counted in zero-sleeps, plus external bursts: the re-check loop of wait_until_idle is exercised"""
+    n = rng.randint(1, 2)
+    sc = {'buses': [{'parallel': rng.random() < 0.2, 'maxh': rng.choice([50, 50, None, 3]), 'wal': False} for _ in range(n)],
+          'types': {t: {'timeout': None} for t in RANK}, 'handlers': [], 'tasks': []}
+    for _ in range(rng.randint(0, 3)):
+        kind = rng.choice(['sync', 'async', 'async'])
+        prog = [] if kind == 'sync' else [['sleep', rng.choice([0, 0, 1 / 64])] for _ in range(rng.randint(0, 2))]
+        key = rng.choice(['A', 'B', '*'])
+        if key != '*' and rng.random() < 0.3:       # a wildcard handler that dispatches would never terminate
+            prog.append(['dispatch', rng.randrange(n), 'D', 0])
+        sc['handlers'].append({'bus': rng.randrange(n), 'key': key, 'kind': kind, 'prog': prog})
+    target = rng.randrange(n)
+    producer = []
+    for i in range(rng.randint(2, 7)):
+        producer.append(['dispatch', target, rng.choice('AB'), i])
+        if rng.random() < 0.8:
+            producer.append(['await', i])
+        for _ in range(rng.choice([0, 0, 1, 2])):
+            producer.append(['sleep', 0])
+    sc['tasks'].append(producer)
+    for _ in range(rng.randint(1, 2)):
+        waiter = [['sleep', 0] for _ in range(rng.randint(0, 12))]
+        waiter.append(['waitidle', target])
+        if rng.random() < 0.4:
+            waiter += [['sleep', 0] for _ in range(rng.randint(0, 3))] + [['waitidle', target]]
+        sc['tasks'].append(waiter)
     return sc
 
 
